@@ -3,6 +3,7 @@
   (byte level, L1: every acknowledged batch survives recovery from any torn later write; the WAL level — meta
   commits, rotation, truncation, nested crashes — is carried by the crash suite's ghost-state monitors)
 -/
+import RaftWal.Generated.WalLogic
 import RaftWal.Proofs.SegmentTorn
 import RaftWal.Proofs.CrashCorollaries
 namespace RaftWal.C01
@@ -77,5 +78,12 @@ theorem acked_append_survives_any_crash (d : Crash.Disk) (hq : Crash.QuiescentS 
 /-- the hypotheses are met by the state Open leaves on an empty directory -/
 theorem protocol_init : ∃ d, Crash.openResult Crash.emptyDisk = some d ∧ Crash.QuiescentS d ∧ Crash.absLog d = [] :=
   Crash.init_quiescentS
+
+/-- which segments a truncation keeps, as wal.go decides it (read from the source on every run): a tail truncation keeps
+    every segment whose first index is at or below the new last index; a head truncation keeps the tail if it holds the new
+    first index and a sealed segment if its last index is at or above it -/
+theorem truncation_scans_from_source :
+    Generated.truncateTailStops = ["seg.BaseIndex <= newMax"] ∧
+    Generated.truncateHeadStops = ["newState.lastIndex() >= newMin", "seg.MaxIndex >= newMin"] := by decide
 
 end RaftWal.C01
